@@ -257,11 +257,18 @@ type PathState struct {
 	Choices     []string
 	ChoiceVals  map[string]int
 	Fixed       map[string]string
+
+	consts  []Nondet          // every declared constant (inputs and internal)
+	defs    map[string]string // define-fun bodies
+	M       map[string]ev     // a model of the path condition (when mValid)
+	mValid  bool
+	NoModel bool // disable model-guided decisions (debug / cross-check)
+	EvalHits, EvalMiss int
 }
 
 func newPathState(s *Solver, prefix []int32, params map[string]int) *PathState {
 	return &PathState{S: s, Prefix: prefix, declared: map[string]bool{}, decided: map[string]bool{},
-		Reached: map[string]int{}, Params: params, MaxDecisions: 20000, ChoiceVals: map[string]int{}}
+		Reached: map[string]int{}, Params: params, MaxDecisions: 20000, ChoiceVals: map[string]int{}, defs: map[string]string{}, M: map[string]ev{}}
 }
 
 // name introduces a definition for long terms so that term text stays small.
@@ -272,6 +279,7 @@ func (ps *PathState) name(v sym) value {
 	ps.defSeq++
 	n := fmt.Sprintf("d!%d", ps.defSeq)
 	ps.S.send("(define-fun " + n + " () " + v.k.sort() + " " + v.t + ")")
+	ps.defs[n] = v.t
 	return sym{v.k, n}
 }
 
@@ -290,6 +298,8 @@ func (ps *PathState) declare(name string, k skind) value {
 			ps.S.send("(declare-const " + name + " " + k.sort() + ")")
 		}
 		ps.Nondets = append(ps.Nondets, Nondet{name, k, name})
+		ps.consts = append(ps.consts, Nondet{name, k, name})
+		ps.M[name] = zeroEv(k) // unconstrained so far: any value extends the model
 	}
 	if k == kF64 {
 		return sym{k, "((_ to_fp 11 53) " + name + ")"}
@@ -302,10 +312,105 @@ func (ps *PathState) fresh(prefix string, k skind) sym {
 	ps.hseq++
 	n := fmt.Sprintf("%s!%d", prefix, ps.hseq)
 	ps.S.send("(declare-const " + n + " " + k.sort() + ")")
+	ps.consts = append(ps.consts, Nondet{n, k, n})
+	ps.M[n] = zeroEv(k)
 	return sym{k, n}
 }
 
-func (ps *PathState) assertTerm(t string) { ps.S.send("(assert " + t + ")") }
+// assertTerm adds a side constraint (stub contract) to the path condition.
+func (ps *PathState) assertTerm(t string) {
+	ps.S.send("(assert " + t + ")")
+	if ps.mValid {
+		if v, err := ps.evalBool(t); err != nil || !v {
+			ps.mValid = false
+		}
+	}
+}
+
+func zeroEv(k skind) ev {
+	switch k {
+	case kBool:
+		return ev{evBool, 0, 0}
+	case kF64:
+		return ev{evBV, 0, 64} // float inputs are declared as their IEEE bits
+	}
+	return ev{evBV, 0, k.width()}
+}
+
+func (ps *PathState) evalBool(t string) (bool, error) {
+	e := &evaluator{model: ps.M, defs: ps.defs, memo: map[string]ev{}}
+	v, err := e.evalTerm(t)
+	if err != nil {
+		return false, err
+	}
+	if v.k != evBool {
+		return false, fmt.Errorf("not a bool: %s", t)
+	}
+	return v.u != 0, nil
+}
+
+// refreshModel asks the solver for a model of the current path condition.
+func (ps *PathState) refreshModel() bool {
+	r := ps.S.check()
+	if r != "sat" {
+		if r == "unknown" {
+			ps.Inconcl++
+			ps.pcUnknown = true
+		}
+		ps.mValid = false
+		return false
+	}
+	ps.readModel()
+	return true
+}
+
+// readModel loads the solver's current model (call right after a sat answer).
+func (ps *PathState) readModel() {
+	names := make([]string, len(ps.consts))
+	for k, n := range ps.consts {
+		names[k] = n.Term
+	}
+	raw := ps.S.getValues(names)
+	m := make(map[string]ev, len(names))
+	for _, n := range ps.consts {
+		v := raw[n.Term]
+		if n.Kind == kBool {
+			m[n.Term] = ev{evBool, b2u(v == "true"), 0}
+			continue
+		}
+		u, ok := parseBV(v)
+		if !ok {
+			panic(engineError{"model value for " + n.Name + ": " + v})
+		}
+		w := n.Kind.width()
+		m[n.Term] = ev{evBV, u, w}
+	}
+	ps.M = m
+	ps.mValid = true
+}
+
+// modelInputs formats the nondet inputs of the current model M.
+func (ps *PathState) modelInputs() map[string]string {
+	out := map[string]string{}
+	for _, n := range ps.Nondets {
+		v := ps.M[n.Term]
+		switch {
+		case n.Kind == kBool:
+			if v.u != 0 {
+				out[n.Name] = "true"
+			} else {
+				out[n.Name] = "false"
+			}
+		case n.Kind == kF64:
+			out[n.Name] = fmt.Sprintf("f:%016x", v.u)
+		case n.Kind.signed():
+			out[n.Name] = strconv.FormatInt(sext(v.u, n.Kind.width()), 10)
+		default:
+			out[n.Name] = strconv.FormatUint(v.u, 10)
+		}
+	}
+	return out
+}
 
 func (ps *PathState) record(d int32) {
 	ps.Trace = append(ps.Trace, d)
@@ -337,9 +442,55 @@ func (ps *PathState) decide(c sym) bool {
 			return d == 3
 		}
 		ps.take(c, d == 1)
+		ps.mValid = false
 		return d == 1
 	}
 	// new decision
+	if !ps.NoModel {
+		if !ps.mValid {
+			ps.refreshModel()
+		}
+		if ps.mValid {
+			if v, err := ps.evalBool(c.t); err == nil {
+				ps.EvalHits++
+				// the witness M takes side v; only the other side needs a query
+				other := neg.t
+				if !v {
+					other = c.t
+				}
+				ps.S.send("(push)")
+				ps.S.send("(assert " + other + ")")
+				r := ps.S.check()
+				var otherModel bool
+				if r == "sat" {
+					otherModel = true
+				}
+				_ = otherModel
+				ps.S.send("(pop)")
+				if r == "unsat" {
+					ps.decided[c.t] = v
+					if v {
+						ps.record(3)
+					} else {
+						ps.record(2)
+					}
+					return v
+				}
+				if r == "unknown" {
+					ps.Inconcl++
+				}
+				var me, alt int32 = 1, 0
+				if !v {
+					me, alt = 0, 1
+				}
+				ps.Alts = append(ps.Alts, append(append([]int32{}, ps.Trace...), alt))
+				ps.record(me)
+				ps.take(c, v)
+				return v
+			}
+			ps.EvalMiss++
+		}
+	}
 	ps.S.send("(push)")
 	ps.S.send("(assert " + c.t + ")")
 	rt := ps.S.check()
@@ -371,6 +522,7 @@ func (ps *PathState) decide(c sym) bool {
 	ps.Alts = append(ps.Alts, alt)
 	ps.record(1)
 	ps.take(c, true)
+	ps.mValid = false
 	return true
 }
 
@@ -459,8 +611,13 @@ func (ps *PathState) assert(c value, label string) {
 			ps.Discharged++
 			return
 		}
-		r := ps.S.check()
 		v := Violation{Label: label, Tag: tag, Kind: "concrete-assert", Choices: append([]int(nil), toInts(ps.Trace)...)}
+		if ps.mValid && !ps.NoModel {
+			v.Inputs = ps.modelInputs()
+			ps.Viol = append(ps.Viol, v)
+			panic(violationAbort{})
+		}
+		r := ps.S.check()
 		if r == "sat" {
 			v.Inputs = ps.model()
 		} else if r == "unknown" {
@@ -479,6 +636,18 @@ func (ps *PathState) assert(c value, label string) {
 		if dv, ok := ps.decided[x.t]; ok && dv {
 			ps.Discharged++
 			return
+		}
+		if !ps.NoModel {
+			if !ps.mValid {
+				ps.refreshModel()
+			}
+			if ps.mValid {
+				if cv, err := ps.evalBool(x.t); err == nil && !cv {
+					v := Violation{Label: label, Tag: tag, Kind: "assert", Choices: append([]int(nil), toInts(ps.Trace)...), Inputs: ps.modelInputs()}
+					ps.Viol = append(ps.Viol, v)
+					panic(violationAbort{})
+				}
+			}
 		}
 		ps.S.send("(push)")
 		ps.S.send("(assert " + symNot(x).(sym).t + ")")
